@@ -240,6 +240,58 @@ def plain_case(n, code, rng):
     return {'main': [base(0) + '.zn'], 'files': files, 'adj': adj, 'kind': 'plain'}
 
 
+def shadow_case(n, rng, ctx):
+    """acyclic and fully reachable (every file imports the next one, plus random forward edges): every file except the main one
+    exports 共 — and, with some probability, a name that collides with the exporter's neighbour (`乙辅` defined in 甲 too) — while
+    the importer defines names of its own with the same spelling, whose bodies call the importer's OWN helper.  A method always
+    runs in the module that defines it, whatever else carries its name."""
+    adj = [[i + 1] + [j for j in range(i + 2, n) if rng.random() < 0.4] if i + 1 < n else [] for i in range(n)]
+    files = []
+    extra = {}                     # file j additionally exports a helper spelled like file j-1's helper
+    for j in range(2, n):
+        if rng.random() < 0.4:
+            extra[j] = names_of(j - 1)['g']
+    for i in range(n):
+        nm = names_of(i)
+        targets = list(adj[i])
+        rng.shuffle(targets)
+        imports, visible = [], []
+        for j in targets:
+            tn = names_of(j)
+            exn = [tn['f'], tn['g'], tn['t'], '共'] + ([extra[j]] if j in extra else [])
+            if rng.random() < 0.5:
+                sel, got = [], exn
+            else:
+                sel = [e for e in exn if rng.random() < 0.7] or ['共']
+                rng.shuffle(sel)
+                got = sel
+            imports.append((base(j), sel))
+            visible += [(j, e) for e in got]
+        defs = [('d', nm['g'], 'm', 103 + 10 * i, []),
+                ('d', nm['f'], 'm', 102 + 10 * i, [('c', nm['g'])] + ([('c', '共')] if i > 0 and rng.random() < 0.6 else [])),
+                ('d', nm['t'], 't', 104 + 10 * i, [('c', nm['g'])])]
+        if i > 0:
+            defs.append(('d', '共', 'm', 105 + 10 * i, [('c', nm['g'])] if rng.random() < 0.8 else []))
+        if i in extra:
+            defs.append(('d', extra[i], 'm', 106 + 10 * i, [('c', nm['g'])]))
+        rng.shuffle(defs)
+        own = {d[1] for d in defs}
+        uses = []
+        for (j, e) in visible:
+            if rng.random() < 0.8:
+                uses.append(('u', ('n', e)) if e.endswith('类') else ('u', ('c', e)))
+        if i > 0 and rng.random() < 0.7:
+            uses.append(('u', ('c', '共')))
+        uses.append(('u', ('c', nm['f'])))
+        rng.shuffle(uses)
+        head, tail = [('m', 100 + 10 * i)], [('m', 101 + 10 * i)]
+        items = (defs + head + uses + tail) if rng.random() < 0.5 else (head + uses + tail + defs)
+        files.append({'path': [base(i) + '.zn'], 'imports': imports, 'items': items})
+        if any(e in own for (_, e) in visible):
+            ctx.count('shadow_own_definition_spelled_like_an_imported_name')
+    return {'main': [base(0) + '.zn'], 'files': files, 'adj': adj, 'kind': 'deco'}
+
+
 def deco_case(n, code, rng, ctx):
     adj = graph_of(n, code)
     # nested directories
@@ -250,7 +302,7 @@ def deco_case(n, code, rng, ctx):
     modname = ['-'.join(dirs[i] + [base(i)]) for i in range(n)]
     # export sets
     exports = []
-    shared = rng.random() < 0.15
+    shared = rng.random() < 0.25
     for i in range(n):
         nm = names_of(i)
         x = rng.random()
@@ -328,7 +380,8 @@ def deco_case(n, code, rng, ctx):
         if 't' in ex:
             defs.append(('d', nm['t'], 't', 104 + 10 * i, [('c', nm['g'])] if 'g' in ex else []))
         if shared and i > 0:
-            defs.append(('d', '共', 'm', 105 + 10 * i, []))
+            # a module's OWN 共 (which shadows an imported 共) runs in this module: it may call this module's helper
+            defs.append(('d', '共', 'm', 105 + 10 * i, [('c', nm['g'])] if ('g' in ex and rng.random() < 0.7) else []))
         if defs and rng.random() < 0.03:
             defs.append(defs[0])                                       # definition repeated in one module (43)
         rng.shuffle(defs)
@@ -415,6 +468,13 @@ SEEDS = [
     {'main': ['主.zn'], 'files': [
         {'path': ['主.zn'], 'imports': [('甲', [])], 'items': [('u', ('n', '甲类'))]},
         {'path': ['甲.zn'], 'imports': [], 'items': [('d', '甲类', 't', 3, [('c', '无名')])]}]},
+    # a module's own method spelled like an imported one runs in the module that defines it (it calls ITS helper)
+    {'main': ['主.zn'], 'files': [
+        {'path': ['主.zn'], 'imports': [('甲', [])], 'items': [('m', 1), ('u', ('c', '甲法')), ('m', 2)]},
+        {'path': ['甲.zn'], 'imports': [('乙', [])], 'items': [
+            ('d', '甲法', 'm', 3, [('c', '共')]), ('d', '甲辅', 'm', 4, []), ('d', '共', 'm', 115, [('c', '甲辅')]),
+            ('m', 6), ('u', ('c', '共'))]},
+        {'path': ['乙.zn'], 'imports': [], 'items': [('d', '共', 'm', 125, []), ('m', 7)]}]},
     # long cycle through a nested directory
     {'main': ['主.zn'], 'files': [
         {'path': ['主.zn'], 'imports': [('甲', [])], 'items': [('m', 1)]},
@@ -639,6 +699,7 @@ def run(ctx):
     compare(ctx, 'graphs-4-plain', plain4, check_plain=True)
     deco4 = [deco_case(4, code, rng, ctx) for code in codes4]
     compare(ctx, 'graphs-4-deco', deco4)
+    compare(ctx, 'shadow', [shadow_case(rng.choice([2, 3, 3, 4, 4]), rng, ctx) for _ in range(ctx.n(300, 6000))])
     ctx.count('graphs_enumerated_n4', len(codes4))
     ctx.exhaustive = True
     for c in plain_small + plain4:
